@@ -3,6 +3,16 @@ import json, os
 VERIF = os.path.dirname(os.path.dirname(os.path.abspath(__file__)))
 PROOF = "proof"
 CHECKS = {
+ "C11": dict(
+    text="Lean 4 theorems about the model of _setitem (this − restriction + embedded value): selected entries take the value, all others "
+         "are unchanged, for scalar and tensor values, every number of modes/sizes/ranks/formats and every selection start+i·step; "
+         "histories of assignments by induction. Model (incl. key normalisation, value conversion, singleton modes at integer positions, "
+         "empty selections, shape errors) tied to /repo by bit-exact comparison of all cores after every step of generated histories.",
+    note="Trusted: Lean kernel + standard axioms; harness/driver glue; NumPy assignment as oracle; sampling correspondence. The wrapper "
+         "composition (key normalisation + dense-array conversion + integer positions) is listed as an open statement in Props/C11.lean; "
+         "its pieces are proved (C11.assign_*, C01.roundtrip, C03.getitem_tensor) and the composed model is compared with the code.",
+    tech="Lean 4 proof (restriction/embedding lemmas + C02 add/sub theorems; induction over the history) + differential correspondence",
+    ref="§3 C11"),
  "C03": dict(
     text="Lean 4 theorem (goKey_spec, by induction on the key) about an output-faithful model of _process_key/__getitem__: for every "
          "key in the grammar (ints incl. negative, positive-step slices clipped as Python does, None, Ellipsis, one contiguous run of "
